@@ -32,6 +32,10 @@ HInit == [elected |-> {},      \* <<term, id>> of every replica seen as leader
           ricf    |-> {},      \* <<leader, ctx, from>> hinted heartbeat responses delivered while pending
           acks    |-> {},      \* <<leader, term, from, index>> positive ReplicateResp delivered
           grants  |-> {},      \* <<candidate, term, from>> granted RequestVoteResp delivered
+          released |-> {},     \* read contexts released to a requester anywhere
+          healed  |-> FALSE,   \* C17: the fault prefix is over
+          probes  |-> {},      \* <<replica, value>> proposed after healing
+          probectx |-> {},     \* <<replica, ctx>> reads requested after healing
           bad     |-> {}]      \* names of step-level property violations observed
 
 CMax(hh) == Len(hh.clog)
@@ -118,7 +122,8 @@ HStep(hh, pre, post, m, ev) ==
                                  (pre.mem.w \cap (post.mem.v \cup post.mem.nv)) \cup
                                  (pre.mem.nv \cap post.mem.w)) # {}
                THEN [h13 EXCEPT !.bad = @ \cup {"KindChange"}] ELSE h13
-  IN h14
+      h15 == [h14 EXCEPT !.released = @ \cup {x.ctx : x \in newRtr}]
+  IN h15
 
 (* ----------------------------------------------------- read index history *)
 \* a ReadIndex request with context ctx entered the system now
@@ -200,6 +205,20 @@ RemovedNeverReadmitted == \A n \in Up : node[n].mem.rm \cap (node[n].mem.v \cup 
 KindsDisjoint == \A n \in Up : LET m == node[n].mem IN m.v \cap m.nv = {} /\ m.v \cap m.w = {} /\ m.nv \cap m.w = {}
 MembershipHasVoter == \A n \in Up : (node[n].aapp > 0 /\ node[n].kind # "W") => node[n].mem.v # {}
 KindOnlyPromotes == "KindChange" \notin h.bad
+
+\* C17 bounded progress, evaluated when the fair fault-free phase is over: a leader exists, every
+\* running member of its configuration is in its term and caught up to its commit index (by log
+\* or by snapshot), and every proposal / linearizable read submitted by a member after the
+\* healing has completed
+InLog(s, v) == \E i \in 1..Len(s.log) : s.log[i].typ = "App" /\ s.log[i].val = v /\ s.sidx + i <= s.com
+ProgressPred ==
+  \E l \in Up :
+    /\ node[l].role = "L"
+    /\ \A n \in Up : n \in Members(node[l]) =>
+          /\ node[n].term = node[l].term
+          /\ IF node[n].kind = "W" THEN node[n].com = node[l].com ELSE node[n].aapp = node[l].com
+    /\ \A p \in h.probes : p[1] \in Members(node[l]) => InLog(node[l], p[2])
+    /\ \A p \in h.probectx : (p[1] \in Members(node[l]) /\ node[p[1]].kind # "W") => p[2] \in h.released
 
 NoBad == h.bad = {}
 =============================================================================
